@@ -1694,9 +1694,21 @@ func (*VMValue).FuncInvokeRaw
   loop 1
     invariant vm != nil && vm.Attrs != nil && cd != nil && len(cd.Params) == len(params) && ctx != nil
 
+// makeDetailStr (partial): the spans are grouped into maximal runs that touch or overlap — two consecutive groups are
+// separated by a gap (a span that begins where the previous one ended continues the group: chained dice `2d3d4`), and
+// the value shown for a group is the result of its last-ending span (C14: the annotation's value is the value of the
+// term it replaces).  The byte-splicing itself is not under contract: the function's panic-freedom obligations are
+// advisory.
 func (*Context).makeDetailStr
   props C14 C01
-  noverify
+  advisory-safety
+  requires ctx != nil && ctx.parser != nil
+  ghost at precall 2 ToString: ghostAssert(recv == last.Ret)
+  loop 1
+    invariant lastEnd >= -1 && (len(m) == 0 ==> lastEnd == -1)
+    invariant len(m) > 0 ==> m[len(m)-1].end == lastEnd
+    invariant forall k in [0, len(m)): m[k].begin <= m[k].end && 0 <= m[k].begin
+    invariant forall k in [0, len(m)-1): m[k].end < m[k+1].begin
 
 func (*VMValue).ComputedExecute
   props C07 C06 C05 C01 C15 C16 C09
